@@ -245,9 +245,12 @@ func (conn *Conn) send(call *Call) {
 	if err != nil {
 		// The call may already have been completed (and recycled) by the reader:
 		// removal from the pending table is what entitles a path to complete it.
+		// A stream message is not registered: pending[seq] then belongs to the stream's
+		// opening call and must stay, or the stream could no longer receive.
 		conn.mutex.Lock()
-		owned := isStreaming || conn.pending[seq] == call
-		if owned {
+		owned := isStreaming
+		if !isStreaming && conn.pending[seq] == call {
+			owned = true
 			delete(conn.pending, seq)
 			if stream == openStream {
 				delete(conn.streams, seq)
